@@ -75,7 +75,12 @@ class Query:
                 self.vars.setdefault(qn, None)
                 # guarded: where b = 0 the quotient is unconstrained (as in SMT-LIB's total
                 # division), so unsat of the flattened query implies unsat of the original
-                self.asserts.append(f"(or (= {memo[a[1].id]} 0.0) (= (* {qn} {memo[a[1].id]}) {memo[a[0].id]}))")
+                if self.flatten_div == "defined":
+                    # restrict to executions in which this division is defined (claims of the
+                    # form "wherever the computation is defined, ...")
+                    self.asserts.append(f"(and (not (= {memo[a[1].id]} 0.0)) (= (* {qn} {memo[a[1].id]}) {memo[a[0].id]}))")
+                else:
+                    self.asserts.append(f"(or (= {memo[a[1].id]} 0.0) (= (* {qn} {memo[a[1].id]}) {memo[a[0].id]}))")
                 memo[m.id] = qn
                 continue
             else: s = f"({o} " + " ".join(memo[x.id] for x in a) + ")"
